@@ -320,6 +320,11 @@ func (c *Ctx) Pos(pos token.Pos) string {
 
 func (c *Ctx) RelPos(p token.Position) string {
 	f := p.Filename
+	if c.expanded != nil {
+		if rel, err := filepath.Rel(c.expanded.Dir, f); err == nil && !strings.HasPrefix(rel, "..") {
+			return fmt.Sprintf("S2:%s:%d", rel, p.Line)
+		}
+	}
 	if rel, err := filepath.Rel(c.Repo, f); err == nil && !strings.HasPrefix(rel, "..") {
 		f = rel
 	}
